@@ -14,9 +14,11 @@
    chords differs from the exact Green area by at most d/4 * total arc length, hence by at most 10 * length when d <= 40; and the edges
    returned by the model's Cubic_flatten / Quad_flatten ARE the chords of a parameter list from 0 to 1 (joined with C17's specification),
    so the bound holds of what the flatteners return.  Arc length is the exact integral of the speed, not the 24-point quadrature.
-   NOT covered by a theorem: that the cut parameters of regularSample / sample are at most ~degree of arc length apart (rests on the
-   quadrature's accuracy, C04's unproved clause: a hypothesis of the statements above), positivity for every simple counter-clockwise
-   contour (no formal notion of simple), ellipse and circle signs -- watched by the search against exact Green integrals. *)
+   For curves whose speed stays within a factor 2 the cut spacing is a theorem as well (Proofs/C16space.v, C10path.v, from the quadrature accuracy
+   theorem of C04): the flatten area error of a gentle cubic / quadratic holds with no hypothesis, and for a closed chain of lines and such curves
+   flattened by path_flatten with step <= 8 the shoelace value is within 10 * total arc length of the exact Green area (C10_path_flatten_signed_area_error).
+   NOT covered by a theorem: the cut spacing for curves with cusps or retracted handles (a hypothesis of the general statements above), positivity for
+   every simple counter-clockwise contour (no formal notion of simple), ellipse and circle signs -- watched by the search against exact Green integrals. *)
 
 From Flocq Require Import Core.   (* bpow, radix2 for the float statements; imported first so that [float] below is PrimFloat.float *)
 From Coq Require Import PrimFloat.
